@@ -217,6 +217,8 @@ def scenario_refinegrains(run, seed, idx, mods):
         else:
             UB = xtal.random_rotation(r) @ S @ B
         grains.append((UB, t))
+    if idx % 6 == 1 and ng > 1:
+        grains[-1] = (grains[-1][0], grains[0][1].copy())      # first and last grain share a position (e.g. a twin pair)
     dsm = min(sim.dsmax_on_detector(p), 4.5 / cell[0] if kind == "cubic" else 2.2 / min(cell[:3]) * 1.0 + 0.3)
     hk, _ = sim.make_hkls(cell, sym, dsm)
     s = sim.simulate(p, grains, hk)
@@ -227,6 +229,8 @@ def scenario_refinegrains(run, seed, idx, mods):
     tol = float(r.choice([0.02, 0.05, 0.1]))
     desc = dict(index=idx, route="refinegrains", ngrains=ng, npeaks=n, tol=tol, pars=p, cell=cell)
     names = list(r.permutation(ng)) if idx % 2 else list(range(ng))   # grain names need not be 0..n-1 in order
+    multiscan = idx % 2 == 1
+    perm2 = r.permutation(n)
 
     def build(order):
         o = refinegrains.refinegrains(tolerance=tol, OmFloat=False)
@@ -238,7 +242,22 @@ def scenario_refinegrains(run, seed, idx, mods):
         o.grainnames = [int(names[g]) for g in order]
         for g in order:
             o.grains[(int(names[g]), "scan")] = grain.grain(np.linalg.inv(grains[g][0]), translation=grains[g][1].copy())
+        if multiscan:
+            # a second scan holding the same peaks in another order: every scan must be labelled on its own merits
+            cf2 = columnfile.colfile_from_dict({"sc": s["sc"][perm2].copy(), "fc": s["fc"][perm2].copy(),
+                                                "omega": s["omega"][perm2].copy(), "labels": np.zeros(n) - 2,
+                                                "drlv2": np.ones(n)})
+            o.scannames = ["scan0", "scan"] if idx % 4 == 1 else ["scan", "scan0"]
+            o.scandata["scan0"] = cf2
+            for g in order:
+                o.grains[(int(names[g]), "scan0")] = grain.grain(np.linalg.inv(grains[g][0]), translation=grains[g][1].copy())
         o.assignlabels(quiet=True)
+        if multiscan:
+            l2 = np.empty(n, int)
+            d2_ = np.empty(n)
+            l2[perm2] = np.asarray(cf2.labels).astype(int)
+            d2_[perm2] = np.asarray(cf2.drlv2, float)
+            o._second = (l2, d2_)
         return np.asarray(cf.labels).astype(int), np.asarray(cf.drlv2, float), o
 
     def V(key, what, peak=None):
@@ -253,6 +272,14 @@ def scenario_refinegrains(run, seed, idx, mods):
         lab, d, o = build(range(ng))
     competing = judge(run, V, errs, tol, 12, lab, d, 1.0, np.array(names), "assignlabels")
     run.count("assignlabels_runs")
+    if multiscan:
+        run.count("multiscan_runs")
+        l2, d2_ = o._second
+        judge(run, V, errs, tol, 12, l2, d2_, 1.0, np.array(names), "assignlabels:second-scan")
+        if not np.array_equal(l2, lab):
+            k = int(np.nonzero(l2 != lab)[0][0])
+            V("assignlabels:scan-dependent", "the same peak gets label %r in one scan and %r in the other scan of one "
+              "refinegrains object" % (lab[k], l2[k]), k)
     run.case(("refinegrains", ng, n, tol, kind), nontrivial=bool(competing) or ng > 1,
              sample=dict(index=idx, route="refinegrains", ngrains=ng, npeaks=n, tol=tol, competing_peaks=competing))
     # ground truth: noise free, so every peak's generator fits with ~0 error
@@ -314,3 +341,4 @@ def check(run, replay=None):
     run.require_counter("competing_peaks", 100)
     run.require_counter("thread_runs", 100)
     run.require_counter("assignlabels_runs", 5)
+    run.require_counter("multiscan_runs", 3)
